@@ -258,6 +258,11 @@ impl io::Seek for FaultyReader {
     fn seek(&mut self, to: io::SeekFrom) -> io::Result<u64> {
         match to {
             io::SeekFrom::Start(0) => {
+                if self.fail_at == Some((self.pass, usize::MAX)) {
+                    // the rewind after this pass fails
+                    self.delivered.lock().unwrap().0 = true;
+                    return Err(io::Error::other("INJECTED-READER-SEEK-FAULT"));
+                }
                 self.pos = 0;
                 self.pass += 1;
                 self.delivered.lock().unwrap().1 += 1;
@@ -278,13 +283,16 @@ fn line_source_faults(ctx: &mut Ctx, t: bool) {
         let keys: Vec<String> = (0..n).map(|i| format!("k{i}")).collect();
         let text: Arc<Vec<u8>> = Arc::new(keys.iter().flat_map(|k| k.bytes().chain([b'\n'])).collect());
         let vals: Arc<Vec<usize>> = Arc::new((0..n).map(|i| i % 7).collect());
-        for filter in [false, true] {
+        // builder seed 0: the first attempt succeeds for these key sets; seed 5: two failed attempts first,
+        // so the reader is sought back twice (read faults in later passes and seek faults become reachable)
+        for (filter, bseed) in [(false, 0u64), (true, 0), (false, 5), (true, 5)] {
             let run = |fail_at: Option<(usize, usize)>| -> (Result<usize, String>, bool, usize) {
                 let st = Arc::new(Mutex::new((false, 1usize)));
                 let rd = FaultyReader { data: text.clone(), pos: 0, pass: 0, fail_at, delivered: st.clone() };
                 let kl = LineLender::new(io::BufReader::with_capacity(16, rd));
                 let out = if filter {
                     VBuilder::<usize, BitFieldVec<usize>>::default()
+                        .seed(bseed)
                         .expected_num_keys(n)
                         .try_build_filter::<str>(kl, 9, no_logging![])
                         .map(|f| keys.iter().filter(|k| !f.contains(k.as_str())).count() + usize::from(f.len() != n))
@@ -292,6 +300,7 @@ fn line_source_faults(ctx: &mut Ctx, t: bool) {
                 } else {
                     let (vl, _) = FaultyLender::new(vals.clone(), Fault::None, "unused");
                     VBuilder::<usize, BitFieldVec<usize>>::default()
+                        .seed(bseed)
                         .expected_num_keys(n)
                         .try_build_func::<str>(kl, vl, no_logging![])
                         .map(|f| (0..n).filter(|&i| f.get(keys[i].as_str()) != vals[i]).count() + usize::from(f.len() != n))
@@ -300,7 +309,7 @@ fn line_source_faults(ctx: &mut Ctx, t: bool) {
                 let g = st.lock().unwrap();
                 (out, g.0, g.1)
             };
-            if !ctx.common_case(|| format!("VBuilder::<fault-free reference build over LineLender> filter={filter} n={n}")) {
+            if !ctx.common_case(|| format!("VBuilder::<fault-free reference build over LineLender> filter={filter} n={n} builder_seed={bseed}")) {
                 continue;
             }
             let (r0, _, passes) = match guard(|| run(None)) {
@@ -319,9 +328,13 @@ fn line_source_faults(ctx: &mut Ctx, t: bool) {
                 ps.push(passes - 1);
             }
             for p in ps {
-                for off in 0..=text.len() {
-                    let boundary = off == text.len() || off == 0 || text[off - 1] == b'\n';
-                    if !ctx.case(|| format!("VBuilder::try_build keys through LineLender filter={filter} n={n} passes={passes} fault: the reader fails at byte {off} of pass {p} ({})", if boundary { "a line boundary" } else { "inside a line" })) {
+                // offsets 0..=len are read faults; usize::MAX stands for "the seek that rewinds after pass p fails"
+                for off in (0..=text.len()).chain([usize::MAX]) {
+                    if off == usize::MAX && p + 1 >= passes {
+                        continue; // no rewind after the last pass
+                    }
+                    let boundary = off >= text.len() || off == 0 || text[off - 1] == b'\n';
+                    if !ctx.case(|| format!("VBuilder::try_build keys through LineLender filter={filter} n={n} builder_seed={bseed} passes={passes} fault: the reader fails at byte {off} of pass {p} ({})", if off == usize::MAX { "= the seek back to 0 after this pass" } else if boundary { "a line boundary" } else { "inside a line" })) {
                         continue;
                     }
                     ctx.nontrivial();
